@@ -209,6 +209,11 @@ func (s *Schema) ValidateData(data []byte) error {
 		return err
 	}
 
+	if any == nil {
+		// JSON data: decode it for the content checks, like YAML data
+		_ = json.Unmarshal(data, &any)
+	}
+
 	return s.validateContents(any)
 }
 
